@@ -51,6 +51,15 @@ CHECKS = {
          'model, z3 sequence/regex theory, the regex translator (vf/regex_smt.py; unsupported constructs => inconclusive).',
     technique='symbolic execution (CrossHair + z3) of the real lookup code over an int-coded family + direct z3 regex equivalence (E2)',
     engine='E1-crosshair + E2-z3-regex'),
+ 'C03': dict(
+    cat='model_checking', ref='DESIGN.md §3 C03',
+    text='Exhaustive bounded exploration, driven by CrossHair/z3 path search, of the real port-selection code: every pair of selections '
+         '(wildcard or any non-empty subset of a 4-name pool incl. an unknown name and a name of the other side) against every port set, '
+         'per side through PortsSemanticsCfg.match and whole configurations through the real Builder.build, compared with a reference '
+         'resolver written from the property (accept/reject agreement, error type AdvShellError, resulting semantics, injected ports).',
+    note='Names are opaque (==/hash), so the pool bounds distinct names. Each explored path fixes the int-coded choice vector (solver-checked) '
+         'and runs the real code on it; explicit naming of an injected port is a stated don\'t-care. <=2 ports per side.',
+    technique='symbolic path exploration (CrossHair + z3) over an int-coded configuration family, real code executed per path'),
 }
 
 NOT_APPLICABLE = {
